@@ -94,7 +94,14 @@ def write_traceback(logger=None, exc_info=None):
     if exc_info is None:
         exc_info = sys.exc_info()
     typ, exception, tb = exc_info
-    traceback = "".join(_traceback_no_io.format_exception(typ, exception, tb))
+    try:
+        traceback = "".join(_traceback_no_io.format_exception(typ, exception, tb))
+    except Exception:
+        # The standard library cannot format some exceptions (e.g. a
+        # SyntaxError with malformed details); logging must not raise:
+        traceback = "".join(_traceback_no_io.format_tb(tb)) + (
+            "eliot: unknown, formatting the exception raised an exception\n"
+        )
     _writeTracebackMessage(logger, typ, exception, traceback)
 
 
